@@ -75,3 +75,60 @@ def nontrivial(r, obs, events):
 
 def describe(p):
     return ["policy=" + p["policy"]["kind"], "subs=%d" % len(p["subs"]), "cancels=%d" % len(p["cancels"])]
+
+
+def extra(stats, tier, seed):
+    """Directed (composition): cancel() on the OUTER future of poll-over-retry / map-over-retry / timeout-over-retry while an attempt runs, and between
+    two attempts.  Whatever the outer cancel() answers, the request reaches the retry layer: no further attempt is submitted to the delegate."""
+    import drive
+    from lib import Manual
+    from more_executors import Executors
+    from more_executors._impl.retry import RetryExecutor
+    known_patterns = set(k["pattern"] for k in drive.load_known(PROP))
+
+    def viol(what, pattern, detail=None):
+        v = {"what": what, "pattern": pattern, "detail": detail, "case": {"params": {}, "chooser": "none", "cseed": 0, "origin": "directed"}}
+        if pattern in known_patterns:
+            stats.known.setdefault(pattern, v)
+        else:
+            stats.violations.append(v)
+    outers = [("poll", lambda ex: ex.with_poll(lambda ds: [d.yield_result(d.result) for d in ds] and None, default_interval=1)),
+              ("map", lambda ex: ex.with_map(lambda v: v)), ("timeout", lambda ex: ex.with_timeout(10 ** 6)),
+              ("flat_map", lambda ex: ex.with_flat_map(lambda v: __import__("more_executors").futures.f_return(v)))]
+    ntr = 12 if tier == "quick" else 160
+    for trial in range(ntr):
+        nm, mk = outers[trial % len(outers)]
+        when = ("running", "between")[(trial // len(outers)) % 2]
+        res = {}
+
+        def main(mk=mk, when=when, res=res):
+            m = Manual()
+            with det.atomic():
+                top = mk(RetryExecutor(m, max_attempts=4, sleep=3))
+            f = top.submit(lambda: 1)
+            det.wait_until(lambda: len(m.fs) >= 1)
+            d0 = m.fs[0][0]
+            if when == "running":
+                d0.set_running_or_notify_cancel()
+                res["answer"] = f.cancel()
+                d0.set_exception(KeyError("attempt 1 fails"))
+            else:
+                d0.set_running_or_notify_cancel()
+                d0.set_exception(KeyError("attempt 1 fails"))
+                det.sleep(1)                    # the back-off (3) has not elapsed: the job sleeps between two attempts
+                res["answer"] = f.cancel()
+            n0 = len(m.fs)
+            det.sleep(20)
+            res["later_submissions"] = len(m.fs) - n0
+            res["state"] = f._state
+            top.shutdown(False)
+        r = det.run(det.make_chooser(("random", "sticky", "pct")[trial % 3], seed * 13 + trial), main)
+        stats.add([[6, 11, trial % len(outers), 0 if when == "running" else 1]], True, None, ["directed:outer-cancel-over-retry:" + nm])
+        if r.exc is not None or r.deadlock or r.hang:
+            viol("%s over retry, cancel %s: %s" % (nm, when, ("deadlock %s" % (r.deadlock,)) if (r.deadlock or r.hang) else getattr(r, "tb", "")[-300:]),
+                 "retry:deadlock", nm)
+            continue
+        if res.get("later_submissions"):
+            viol("%s over retry: cancel() on the outer future (%s; it answered %r) did not end retrying: %d further submission(s) to the delegate, future %s"
+                 % (nm, "while attempt 1 was running" if when == "running" else "between two attempts", res.get("answer"), res["later_submissions"], res.get("state")),
+                 "retry:submit-after-cancel", nm)
